@@ -126,11 +126,13 @@ theorem kroneckerG_sem (h : SemOp op leg) (l : List γ) (hl : l ≠ []) :
     · rename_i hlen
       have hlen' : 3 < l.length := by omega
       have ht : l.take (l.length / 2) ≠ [] := by
-        intro hh; have := congrArg List.length hh; simp at this; omega
+        intro hh; have := congrArg List.length hh
+        rw [List.length_take, List.length_nil] at this; omega
       have hd : l.drop (l.length / 2) ≠ [] := by
-        intro hh; have := congrArg List.length hh; simp at this; omega
-      obtain ⟨a, ha, ha1, ha2⟩ := ih (l.take (l.length / 2)).length (by simp; omega) _ ht rfl
-      obtain ⟨b, hb, hb1, hb2⟩ := ih (l.drop (l.length / 2)).length (by simp; omega) _ hd rfl
+        intro hh; have := congrArg List.length hh
+        rw [List.length_drop, List.length_nil] at this; omega
+      obtain ⟨a, ha, ha1, ha2⟩ := ih (l.take (l.length / 2)).length (by rw [List.length_take]; omega) _ ht rfl
+      obtain ⟨b, hb, hb1, hb2⟩ := ih (l.drop (l.length / 2)).length (by rw [List.length_drop]; omega) _ hd rfl
       refine ⟨op a b, ?_, ?_, ?_⟩
       · rw [ha, hb]; rfl
       · rw [h.dim_op, ha1, hb1, ← dims_append, ← List.map_append, List.take_append_drop]
@@ -183,11 +185,11 @@ theorem wfi_of_wfBlocks (l : List (Block (Mat R))) (h : wfBlocks Mat.dim l = tru
     | [], _ => exact .nil
     | .scalar :: .mat M :: rest, h =>
       simp only [wfBlocks, Bool.and_eq_true, beq_iff_eq] at h
-      exact .m4before M rest h.1 (ih rest.length (by subst hn; simp; omega) rest h.2 rfl)
-    | [.scalar], h => simp [wfBlocks] at h
-    | .scalar :: .scalar :: rest, h => simp [wfBlocks] at h
+      exact .m4before M rest h.1 (ih rest.length (by subst hn; simp only [List.length_cons]; omega) rest h.2 rfl)
+    | [.scalar], h => cases h
+    | .scalar :: .scalar :: rest, h => cases h
     | .mat M :: rest, h =>
-      simp only [wfBlocks] at h
+      unfold wfBlocks at h
       split at h
       · rename_i h2
         exact .m2 M rest (by simpa using h2) (ih rest.length (by subst hn; simp) rest h rfl)
@@ -195,7 +197,7 @@ theorem wfi_of_wfBlocks (l : List (Block (Mat R))) (h : wfBlocks Mat.dim l = tru
         obtain ⟨h4, hr⟩ := h
         match rest, hr with
         | .scalar :: rest', hr =>
-          exact .m4after M rest' h4 (ih rest'.length (by subst hn; simp; omega) rest' hr rfl)
+          exact .m4after M rest' h4 (ih rest'.length (by subst hn; simp only [List.length_cons]; omega) rest' hr rfl)
 
 def isMat : Block (Mat R) → Bool
   | .mat _ => true
@@ -290,13 +292,13 @@ theorem reduceKron_sem [DecidableEq R] (l : List (PyVal (Mat R))) (hl : l ≠ []
     obtain ⟨h1, h2⟩ := foldl_sem (semOp_pyKron (R := R)) xs x
     exact ⟨_, rfl, by simpa [dims_cons] using h1, by simpa [kronList_cons] using h2⟩
 
-def PyVal.isArr {β : Type} : PyVal β → Bool
+def isArr {β : Type} : PyVal β → Bool
   | .arr _ => true
   | _ => false
 
 theorem foldl_pyKron_isArr [DecidableEq R] (xs : List (PyVal (Mat R))) (acc : PyVal (Mat R))
-    (h : acc.isArr = true ∨ xs.any PyVal.isArr = true) :
-    (xs.foldl (pyKron (matOps (dictOf R))) acc).isArr = true := by
+    (h : isArr acc = true ∨ xs.any isArr = true) :
+    isArr (xs.foldl (pyKron (matOps (dictOf R))) acc) = true := by
   induction xs generalizing acc with
   | nil => simpa using h
   | cons x xs ih =>
@@ -304,17 +306,17 @@ theorem foldl_pyKron_isArr [DecidableEq R] (xs : List (PyVal (Mat R))) (acc : Py
     apply ih
     simp only [List.any_cons, Bool.or_eq_true] at h
     rcases h with h | h | h
-    · left; cases acc <;> cases x <;> simp_all [pyKron, PyVal.isArr]
-    · left; cases acc <;> cases x <;> simp_all [pyKron, PyVal.isArr]
+    · left; cases acc <;> cases x <;> simp_all [pyKron, isArr]
+    · left; cases acc <;> cases x <;> simp_all [pyKron, isArr]
     · right; exact h
 
 /-- a list that contains a matrix reduces to a matrix: its dimension and entries -/
-theorem reduceKron_arr [DecidableEq R] (l : List (PyVal (Mat R))) (h : l.any PyVal.isArr = true) :
+theorem reduceKron_arr [DecidableEq R] (l : List (PyVal (Mat R))) (h : l.any isArr = true) :
     ∃ K : Mat R, reduceKron (matOps (dictOf R)) l = .ok (.arr K) ∧ K.dim = dims (l.map pvLeg) ∧
       fn K = kronList (l.map pvLeg) := by
   have hl : l ≠ [] := by intro hh; subst hh; simp at h
   obtain ⟨v, hv, h1, h2⟩ := reduceKron_sem l hl
-  have harr : v.isArr = true := by
+  have harr : isArr v = true := by
     cases l with
     | nil => exact absurd rfl hl
     | cons x xs =>
@@ -324,14 +326,14 @@ theorem reduceKron_arr [DecidableEq R] (l : List (PyVal (Mat R))) (h : l.any PyV
       simpa [Bool.or_eq_true] using h
   cases v with
   | arr K => exact ⟨K, hv, h1, h2⟩
-  | int1 => simp [PyVal.isArr] at harr
-  | np0 => simp [PyVal.isArr] at harr
+  | int1 => simp [isArr] at harr
+  | np0 => simp [isArr] at harr
 
 theorem any_isArr_map_toPy (l : List (Block (Mat R))) :
-    (l.map Block.toPy).any PyVal.isArr = l.any isMat := by
+    (l.map Block.toPy).any isArr = l.any isMat := by
   induction l with
   | nil => rfl
-  | cons b rest ih => cases b <;> simp [Block.toPy, PyVal.isArr, isMat, ih]
+  | cons b rest ih => cases b <;> simp [Block.toPy, isArr, isMat, ih]
 
 theorem map_pvLeg_toPy (l : List (Block (Mat R))) : (l.map Block.toPy).map pvLeg = l.map blockLeg := by
   simp [blockLeg]
@@ -359,19 +361,20 @@ theorem applyPlan_ok {n : ℕ} {l : Layer (Mat R)} {p : LayerPlan (Mat R)} (hp :
   cases p with
   | dense K =>
     obtain ⟨M, rfl, hd, hM⟩ := hp
-    refine ⟨_, ?_, ?_, ?_⟩
+    refine ⟨Array.ofFn (n := M.dim) fun i => mulVec M.dim (fn M) (vfn ψ) i.val, ?_, ?_, ?_⟩
     · simp only [applyPlan, pyMatVec]
       exact matVec_eq M ψ (by rw [hd, hψ])
     · simp [hd]
     · intro i hi
-      rw [vfn_ofFn _ _ (by rw [hd]; exact hi), hd, hM]
+      rw [vfn_ofFn _ _ (by rw [hd]; exact hi)]
+      simp only [hd, hM]
   | skip =>
     refine ⟨ψ, rfl, hψ, fun i hi => ?_⟩
     have hp' : layerMat l = idMat (2 ^ n) := hp
     rw [hp', mulVec_idMat _ _ _ hi]
   | einsum legs =>
     obtain ⟨hpos, hd, hk⟩ := hp
-    refine ⟨_, ?_, ?_, ?_⟩
+    refine ⟨Array.ofFn (n := legDims legs) fun i => contractAt (dictOf R) ψ legs 0 i.val, ?_, ?_, ?_⟩
     · simp only [applyPlan]
       rw [if_neg (by rw [hd, hψ]; simp)]
     · simp [hd]
@@ -407,7 +410,8 @@ theorem foldlM_steps {n : ℕ} (step : Layer (Mat R) → Array R → Except Err 
       rw [Array.getD_eq_getD_getElem?, Array.getElem?_eq_getElem hi1] at this
       simp only [Option.getD_some] at this
       rw [this]
-      simp [specApply, vfn]
+      simp only [specApply, Array.getElem_ofFn]
+      rfl
   intro L
   induction L with
   | nil =>
